@@ -14,6 +14,8 @@ def dispatch (prop : String) (op : String) (args : List Sexp) : Verdict :=
   | "C16" => c16 op args
   | "C03" => c03 op args
   | "C04" => c04 op args
+  | "C13" => c13 op args
+  | "C02" => c02 op args
   | "C18" => c18 op args
   | "C19" => c19 op args
   | "C10" => c10 op args
